@@ -60,6 +60,7 @@ class SimDevice:
         self._nonce_fn = nonces or (lambda n: bytes(((n * 37 + i * 11 + 5) & 0xFF) for i in range(32)))
         self.handshakes = 0
         self.requests = 0
+        self.extra_creds: dict[bytes, bytes] = {}   # further token -> key registrations
         self.on_enc_request = None   # optional takeover of verified type-6 packets: f(conn, V3Packet, entry)
         # wire log: one entry per client packet
         self.rx: list[dict] = []
@@ -138,14 +139,16 @@ class SimDevice:
                 return
             entry["counter"] = p.counter
             entry["token"] = p.body
-            if self.token is not None and p.body == self.token:
+            key = self.key if (self.token is not None and p.body == self.token) else self.extra_creds.get(p.body)
+            if key is not None:
                 nonce = self._nonce_fn(self.handshakes)
                 self.handshakes += 1
                 entry.update(ok=True, nonce=nonce)
-                st["session_key"] = rc.session_key(self.key, nonce)
+                st["session_key"] = rc.session_key(key, nonce)
+                entry["key"] = key
                 st["accepted"] += 1
                 entry["session_key"] = st["session_key"]
-                reply = rc.v3_build_plain(rc.T_HANDSHAKE_RESP, p.counter, rc.handshake_reply_body(self.key, nonce))
+                reply = rc.v3_build_plain(rc.T_HANDSHAKE_RESP, p.counter, rc.handshake_reply_body(key, nonce))
                 self._dispatch(conn, "handshake", [reply], p.body, True, data)
             else:
                 entry["error"] = "unknown token"
